@@ -41,4 +41,8 @@ class FlaskJsonRequest(JsonRequest):
     def data(self):
         # malformed JSON or another content type: no data, the endpoint
         # answers with invalid_request
-        return self._request.get_json(silent=True)
+        try:
+            return self._request.get_json(silent=True)
+        except RecursionError:
+            # nested too deeply for the decoder
+            return None
